@@ -39,7 +39,7 @@ ASSUMPTIONS = [
 ]
 REQUIRED = {"mode:include": 40, "mode:exclude": 40, "kind:pair": 20, "kind:eam": 15, "kind:fs": 15, "kind:adp": 5,
             "removes_and_keeps": 50, "views>=2": 40, "views_tabulated": 25, "unknown_label": 15, "empty_include": 5,
-            "route:main": 25, "only_unknown_labels:include:make_config_parser": 2, "only_unknown_labels:exclude:make_config_parser": 2}
+            "route:main": 25, "only_unknown_labels:include:command_line_glue": 2, "only_unknown_labels:exclude:command_line_glue": 2}
 
 
 @st.composite
@@ -74,7 +74,8 @@ def _case(draw, targets=None, shape=None, mode=None):
     others = draw(st.lists(_filter(sp), min_size=0, max_size=3))
     order = draw(st.permutations(list(range(len(others) + 1))))
     return {"model": m, "filter": flt, "others": others, "order": list(order),
-            "route": draw(st.sampled_from(["FilteredConfigParser", "FilteredConfigParser", "make_config_parser", "main"]))}
+            "route": draw(st.sampled_from(["FilteredConfigParser", "make_config_parser", "main"] if shape == "only_unknown" else
+                                          ["FilteredConfigParser", "FilteredConfigParser", "make_config_parser", "main"]))}
 
 
 def strategy(tier):
@@ -156,7 +157,7 @@ def check_case(case):
     if set(flt["species"]) - used:
         cls.append("unknown_label")
         if flt["species"] and not set(flt["species"]) & used:
-            cls.append("only_unknown_labels:" + flt["mode"] + ":" + case["route"])
+            cls.append("only_unknown_labels:" + flt["mode"] + ":" + ("command_line_glue" if case["route"] in ("make_config_parser", "main", "cli") else case["route"]))
     if flt["mode"] == "include" and not flt["species"]:
         cls.append("empty_include")
     if len(case["others"]) >= 1:
